@@ -100,11 +100,14 @@ pub fn arg_classes(t: &NTree, model: &Model, op: &Op) -> String {
     match op {
         Op::CopyB(_, _, m, f) => cls.push(format!(
             "{}{}",
-            match m {
-                CopyMode::None => "mode=none",
-                CopyMode::All(_) => "mode=all",
-                CopyMode::Dirs(_) => "mode=dirs",
-                CopyMode::Files(_) => "mode=files",
+            match (m, m.effective()) {
+                (CopyMode::Then(..), CopyMode::All(_)) => "mode=…then-all",
+                (CopyMode::Then(..), CopyMode::Dirs(_)) => "mode=…then-dirs",
+                (CopyMode::Then(..), CopyMode::Files(_)) => "mode=…then-files",
+                (_, CopyMode::None) => "mode=none",
+                (_, CopyMode::All(_)) => "mode=all",
+                (_, CopyMode::Dirs(_)) => "mode=dirs",
+                (_, _) => "mode=files",
             },
             if *f { "+follow" } else { "" }
         )),
@@ -676,7 +679,14 @@ pub fn random_op(rng: &mut Rng, paths: &[String], cwd: &str, uid: &mut u64) -> O
         25..=26 => Op::RemoveAll(p),
         27..=31 => Op::MoveP(p, pick(rng)),
         32..=35 => Op::Copy(p, pick(rng)),
-        36 => Op::CopyB(p, pick(rng), rng.pick(&[CopyMode::None, CopyMode::All(0o700), CopyMode::Dirs(0o711), CopyMode::Files(0o600)]).clone(), rng.chance(1, 3)),
+        36 => Op::CopyB(p, pick(rng), rng.pick(&[
+            CopyMode::None,
+            CopyMode::All(0o700),
+            CopyMode::Dirs(0o711),
+            CopyMode::Files(0o600),
+            CopyMode::Then(Box::new(CopyMode::Dirs(0o711)), Box::new(CopyMode::All(0o750))),
+            CopyMode::Then(Box::new(CopyMode::Files(0o600)), Box::new(CopyMode::Dirs(0o755))),
+        ]).clone(), rng.chance(1, 3)),
         37..=40 => Op::Symlink(p, if rng.chance(1, 3) { format!("../{}", rng.pick(&["a", "b", "c"])) } else { pick(rng) }),
         41 => Op::Chmod(p, *rng.pick(&[0o700u32, 0o644, 0o555, 0o777])),
         42 => Op::ChmodB(
